@@ -19,7 +19,8 @@ Next == Len(s) < MaxLen /\ \E c \in Alphabet : s' = Append(s, c)
 
 Case(b, lim) == [type |-> Type, dyn |-> FALSE, b |-> b, limit |-> lim, partial |-> TRUE, discard |-> FALSE, nolazy |-> FALSE]
 \* a larger recursion limit accepts at least as much, with the same content
-LimitMonotone == \A a, c \in Limits : a < c =>
+EffLimit(l) == IF l = 0 THEN 10000 ELSE l     \* 0 selects the default limit
+LimitMonotone == \A a, c \in Limits : EffLimit(a) < EffLimit(c) =>
                    LET ra == DecRes(Case(s, a))  rc == DecRes(Case(s, c)) IN ra.ok => (rc.ok /\ rc.m = ra.m)
 \* the top level message is a sequence of fields: a string that decodes is a concatenation of complete fields,
 \* so its decode equals merging the decodes of any split at a field boundary (checked for the first field)
